@@ -37,11 +37,18 @@ class World:
         self.study = optuna.create_study(storage=optuna.storages.InMemoryStorage(),
                                          sampler=optuna.samplers.RandomSampler(seed=0))
         self.trials: list = []  # live Trial objects by number (None for not-yet-asked WAITING ones)
+        # a second handle on the same study that only ever calls the calculators (a dashboard, a
+        # sampler of another worker): its per-thread caches are never reset by its own ask()/tell()
+        self.reader = optuna.load_study(study_name=self.study.study_name, storage=self.study._storage,
+                                        sampler=optuna.samplers.RandomSampler(seed=1))
         self.calcs = {
             "isect": IntersectionSearchSpace(include_pruned=False),
             "isect+pruned": IntersectionSearchSpace(include_pruned=True),
             "group": _GroupDecomposedSearchSpace(include_pruned=False),
             "group+pruned": _GroupDecomposedSearchSpace(include_pruned=True),
+            "reader:isect": IntersectionSearchSpace(include_pruned=False),
+            "reader:isect+pruned": IntersectionSearchSpace(include_pruned=True),
+            "reader:group+pruned": _GroupDecomposedSearchSpace(include_pruned=True),
         }
         self.prev: dict = {}
 
@@ -87,8 +94,8 @@ class World:
 
     def calc(self, part: Part | None, hist: list) -> None:
         fr = self.frozen()
-        for name, pruned in (("isect", False), ("isect+pruned", True)):
-            got = self.calcs[name].calculate(self.study)
+        for name, pruned in (("isect", False), ("isect+pruned", True), ("reader:isect", False), ("reader:isect+pruned", True)):
+            got = self.calcs[name].calculate(self.reader if name.startswith("reader:") else self.study)
             want = intersection_search_space(fr, include_pruned=pruned)
             if part is not None:
                 part.add("oracle_checks")
@@ -101,8 +108,8 @@ class World:
                                    {"calculator": name, "history": hist, "previous": repr(prev), "now": repr(got)})
             if got:
                 self.prev[name] = got
-        for name, pruned in (("group", False), ("group+pruned", True)):
-            grp = self.calcs[name].calculate(self.study).search_spaces
+        for name, pruned in (("group", False), ("group+pruned", True), ("reader:group+pruned", True)):
+            grp = self.calcs[name].calculate(self.reader if name.startswith("reader:") else self.study).search_spaces
             if part is None:
                 continue
             part.add("oracle_checks")
